@@ -278,4 +278,178 @@ theorem weight_brRun (Bs : Backend Q P) (Bd : Backend V P) (dm : Q → V) (L : D
           rw [hst, mul_smul, L.meas_sv, map_smul]
           rfl
 
+/-! ## The model's density-matrix run -/
+
+omit [AddCommMonoid V] [Module P V] in
+theorem coreStep_dm_gate (Bd : Backend V P) (cfg : Cfg) (c : Circuit) (k : Core V P) (rng : List Int) (g : Gate) (v : V)
+    (hop : c.ops[k.f.opIndex]? = some (.gate g)) (hv : (Op.gate g).Valid c.nq c.ncb) (hb : BitsOk c.ncb k.bits)
+    (hq : k.f.st = some v) :
+    (coreStep Bd cfg .dm c k rng).err = none ∧
+    (coreStep Bd cfg .dm c k rng).core.f.opIndex = k.f.opIndex + 1 ∧
+    (coreStep Bd cfg .dm c k rng).core.bits = k.bits ∧
+    (coreStep Bd cfg .dm c k rng).core.f.st = some (if firesB g k.bits then Bd.gate g.code g.qubits v else v) := by
+  obtain ⟨bv, hbv⟩ := fires_ok g c.nq c.ncb k.bits hv hb
+  have hfb : firesB g k.bits = bv := by unfold firesB; rw [hbv]
+  unfold coreStep
+  simp only [hop]
+  cases bv with
+  | false => simp [hbv, hfb, hq]
+  | true => simp [hbv, hfb, hq]
+
+omit [AddCommMonoid V] [Module P V] in
+theorem coreStep_dm_meas (Bd : Backend V P) (cfg : Cfg) (c : Circuit) (k : Core V P) (rng : List Int) (t : Nat)
+    (store : Option Int) (v : V) (hop : c.ops[k.f.opIndex]? = some (.meas t store)) (ht : t < c.nq)
+    (hq : k.f.st = some v) :
+    (coreStep Bd cfg .dm c k rng).err = none ∧
+    (coreStep Bd cfg .dm c k rng).core.f.opIndex = k.f.opIndex + 1 ∧
+    (coreStep Bd cfg .dm c k rng).core.bits = k.bits ∧
+    (coreStep Bd cfg .dm c k rng).core.f.st = some (Bd.dephase t v) := by
+  unfold coreStep
+  have : ¬ t ≥ c.nq := by omega
+  simp [hop, hq, this]
+
+omit [Semiring P] [AddCommMonoid V] [Module P V] in
+/-- in density-matrix mode `_state` stays a `Qobj` -/
+theorem coreStep_dm_form [Mul P] (Bd : Backend V P) (cfg : Cfg) (c : Circuit) (k : Core V P) (rng : List Int) :
+    (coreStep Bd cfg .dm c k rng).core.f.form = k.f.form := by
+  unfold coreStep
+  cases hop : c.ops[k.f.opIndex]? with
+  | none => rfl
+  | some op =>
+    cases op with
+    | meas t store =>
+      simp only
+      cases hst : k.f.st with
+      | none => rfl
+      | some q => by_cases ht : t ≥ c.nq <;> simp [ht]
+    | gate g =>
+      simp only
+      cases hf : fires g k.bits with
+      | error e => rfl
+      | ok bv =>
+        cases bv with
+        | false => rfl
+        | true =>
+          cases hst : k.f.st with
+          | none => rfl
+          | some q => rfl
+
+omit [Semiring P] [AddCommMonoid V] [Module P V] in
+/-- density-matrix mode never touches `_probability` -/
+theorem coreStep_dm_prob [Mul P] (Bd : Backend V P) (cfg : Cfg) (c : Circuit) (k : Core V P) (rng : List Int) :
+    (coreStep Bd cfg .dm c k rng).core.f.prob = k.f.prob := by
+  unfold coreStep
+  cases hop : c.ops[k.f.opIndex]? with
+  | none => rfl
+  | some op =>
+    cases op with
+    | meas t store =>
+      simp only
+      cases hst : k.f.st with
+      | none => rfl
+      | some q => by_cases ht : t ≥ c.nq <;> simp [ht]
+    | gate g =>
+      simp only
+      cases hf : fires g k.bits with
+      | error e => rfl
+      | ok bv =>
+        cases bv with
+        | false => rfl
+        | true =>
+          cases hst : k.f.st with
+          | none => rfl
+          | some q => rfl
+
+/-- the model's density-matrix loop computes `dmRun` with the firing decisions taken on the (never changing) bits -/
+theorem coreRunLoop_dm (Bs : Backend Q P) (Bd : Backend V P) (dm : Q → V) (L : DmLink Bs Bd dm) (cfg : Cfg)
+    (c : Circuit) (hc : c.Valid) :
+    ∀ (ops : List Op) (k : Core V P) (rng : List Int) (v : V),
+      c.ops.drop k.f.opIndex = ops → BitsOk c.ncb k.bits → k.f.st = some v →
+      (coreRunLoop Bd cfg .dm c ops.length k rng).err = none ∧
+      (coreRunLoop Bd cfg .dm c ops.length k rng).core.f.st =
+        some (dmRun L.G L.Pi (fun g => firesB g k.bits) ops v) ∧
+      (coreRunLoop Bd cfg .dm c ops.length k rng).core.f.prob = k.f.prob := by
+  intro ops
+  induction ops with
+  | nil => intro k rng v _ _ hq; exact ⟨rfl, hq, rfl⟩
+  | cons op ops ih =>
+    intro k rng v hdrop hb hq
+    obtain ⟨hget, hdrop'⟩ := getElem?_of_drop c.ops k.f.opIndex op ops hdrop
+    have hvalid : op.Valid c.nq c.ncb := hc op (List.mem_of_getElem? hget)
+    have hstep : ∃ v', (coreStep Bd cfg .dm c k rng).err = none ∧
+        (coreStep Bd cfg .dm c k rng).core.f.opIndex = k.f.opIndex + 1 ∧
+        (coreStep Bd cfg .dm c k rng).core.bits = k.bits ∧
+        (coreStep Bd cfg .dm c k rng).core.f.st = some v' ∧
+        (coreStep Bd cfg .dm c k rng).core.f.prob = k.f.prob ∧
+        dmRun L.G L.Pi (fun g => firesB g k.bits) (op :: ops) v = dmRun L.G L.Pi (fun g => firesB g k.bits) ops v' := by
+      cases op with
+      | gate g =>
+        obtain ⟨h1, h2, h3, h4⟩ := coreStep_dm_gate Bd cfg c k rng g v hget hvalid hb hq
+        refine ⟨_, h1, h2, h3, h4, ?_, ?_⟩
+        · exact coreStep_dm_prob Bd cfg c k rng
+        · simp only [dmRun, L.gate_dm]
+      | meas t store =>
+        obtain ⟨h1, h2, h3, h4⟩ := coreStep_dm_meas Bd cfg c k rng t store v hget hvalid.1 hq
+        refine ⟨_, h1, h2, h3, h4, ?_, ?_⟩
+        · exact coreStep_dm_prob Bd cfg c k rng
+        · simp only [dmRun, L.dephase_dm]
+    obtain ⟨v', he, hidx, hbits, hst, hprob, hdm⟩ := hstep
+    simp only [List.length_cons]
+    unfold coreRunLoop
+    generalize ho : coreStep Bd cfg .dm c k rng = o at he hidx hbits hst hprob
+    simp only [he, hst, Option.isNone_some, Bool.false_eq_true, ↓reduceIte]
+    have := ih o.core o.rng v' (by rw [hidx]; exact hdrop') (by rw [hbits]; exact hb) hst
+    rw [hbits] at this
+    exact ⟨this.1, by rw [this.2.1, hdm], by rw [this.2.2, hprob]⟩
+
+/-- **dm_eq_mixture (partial: no feed-forward).** For a well-formed circuit none of whose conditions reads a measured
+bit, the density-matrix run of the model from `|ψ⟩⟨ψ|` ends — without exception, with probability `1` — in
+`Σ_r p_r · |φ_r⟩⟨φ_r|` over all records `r`, where `(φ_r, p_r)` is the branch of `r` (pruned branches weigh `0`). -/
+theorem coreRun_dm_eq_mixture (Bs : Backend Q P) (Bd : Backend V P) (dm : Q → V) (L : DmLink Bs Bd dm)
+    (cfg : Cfg) (c : Circuit) (hc : c.Valid) (reads : Int → Prop) (hff : NoFeedForward c.ops reads)
+    (bits0 : Option (List Int)) (hb : BitsOk c.ncb bits0) (q0 : Q) (mr : Option (List Int)) (rng : List Int) :
+    (coreRun Bd cfg .dm c bits0 (dm q0) mr rng).res =
+      .ok (some (((records c.numMeas).map (fun r =>
+        (branchEntry Bs c bits0 q0 r).2.1 • dmOpt dm (branchEntry Bs c bits0 q0 r).1)).sum), 1) := by
+  obtain ⟨he, hst, hprob⟩ := coreRunLoop_dm Bs Bd dm L cfg c hc c.ops ⟨bits0, fields0 (dm q0) mr⟩ rng (dm q0)
+    (by simp [fields0]) hb rfl
+  -- the final read of `.state` does nothing in density-matrix mode (`_state` is a Qobj)
+  have hform : ∀ (n : Nat) (k : Core V P) (rng : List Int), k.f.form = .qobj →
+      (coreRunLoop Bd cfg .dm c n k rng).core.f.form = .qobj := by
+    intro n
+    induction n with
+    | zero => intro k rng h; exact h
+    | succ n ih =>
+      intro k rng h
+      unfold coreRunLoop
+      have hs : (coreStep Bd cfg .dm c k rng).core.f.form = .qobj := by
+        rw [coreStep_dm_form]; exact h
+      simp only
+      split
+      · exact hs
+      · split
+        · exact hs
+        · exact ih _ _ hs
+  have hq := hform c.ops.length ⟨bits0, fields0 (dm q0) mr⟩ rng rfl
+  -- the sum over the records
+  have hsum : dmRun L.G L.Pi (fun g => firesB g bits0) c.ops (dm q0) =
+      ((records c.numMeas).map (fun r =>
+        (branchEntry Bs c bits0 q0 r).2.1 • dmOpt dm (branchEntry Bs c bits0 q0 r).1)).sum := by
+    rw [dmRun_eq_sum, ← numMeas_eq]
+    congr 1
+    apply List.map_congr_left
+    intro r hr
+    have hrec := records_isRecord c r hr
+    have := weight_brRun Bs Bd dm L bits0 reads c.ops ⟨bits0, some q0, 1, r⟩ hff rfl (fun _ _ _ => rfl)
+      (by rw [← numMeas_eq]; exact hrec.1)
+    simp only [branchEntry, branch]
+    unfold weight at this
+    rw [this]
+    simp only [dmOpt, one_smul]
+  unfold coreRun
+  generalize ho : coreRunLoop Bd cfg .dm c c.ops.length ⟨bits0, fields0 (dm q0) mr⟩ rng = o at he hst hprob hq
+  have hg : getter cfg o.core.f = (o.core.f, none) := by
+    unfold getter; rw [hst]; simp only [hq]
+  simp only [he, hg, hst, hprob, hsum, fields0]
+
 end QipVerif.Sim
